@@ -22,6 +22,7 @@ HooksOf(m) ==
     [] m = "Profile" -> {"BeforeSave", "BeforeCreate", "AfterCreate", "AfterSave", "AfterFind", "BeforeDelete", "AfterDelete"}
     [] m = "Memo"  -> {"AfterCreate", "AfterUpdate", "AfterSave", "AfterDelete", "AfterFind"}      \* only After* hooks
     [] m = "Draft" -> {"BeforeSave", "BeforeCreate", "BeforeUpdate", "BeforeDelete"}                \* only Before* hooks
+    [] m = "Stamp" -> {"BeforeSave", "AfterSave"}                                                  \* value-receiver save hooks only
     [] OTHER -> {"BeforeSave", "BeforeCreate", "AfterCreate", "AfterSave", "AfterFind"}
 
 \* documented order of the hooks of one record, per operation kind
